@@ -25,34 +25,37 @@ import c13_gen as G  # noqa: E402
 
 CLAIMED = True
 LEVEL = "proof"
-TECHNIQUE = ("Lean 4 proofs (tester ordering = XSLT 3.4 conflict resolution; simulation of the strip-aware evaluator, "
-             "copy-of and key tables by their plain counterparts on the physically stripped tree, by induction on "
-             "expressions/trees) + translator (inventory of every shouldStripSourceNode call site and of the ordering "
-             "statements, proved equal to what the model accounts for) + correspondence of the model with the real "
-             "shouldStripSourceNode / XPath / copy-of / key() / xsl:number + differential runs (declared vs pre-stripped) "
-             "through XalanTransformer")
-LEVEL_TEXT = ("Machine-checked: (1) for every import tree of strip/preserve declarations and every element name, the "
-              "first match in the list built by Stylesheet::addWhitespaceElement and merged by postConstruction is the "
-              "declaration XSLT 1.0 §3.4 selects (highest import precedence, then priority, then last); (2) for every "
-              "document, every strip function and every expression of the modelled XPath fragment (11 axes, all node "
-              "tests, up to two predicates per step, union, filter, position/last/count/string/string-length/local-name/"
-              "normalize-space/=/</+/-/and/or/concat/contains/starts-with), evaluation that asks `strip` at the node tests "
-              "and in string-values equals evaluation on the physically stripped document; the same for the events of "
-              "xsl:copy-of, key() tables, for-each/apply-templates contexts, sort keys, xsl:number level single/multiple and "
-              "level any without from (including that the C++ backwards walk computes the Recommendation's count); "
-              "xsl:number level=any with from= is proved NOT to have the property (counterexample, known finding); "
-              "xml:space=preserve (XSLT 3.4 third bullet) is part of the selection theorem, following the proposed repair. Tied to the working tree by a translator (call-site inventory + ordering "
-              "statements, re-proved each run), by calling the real StylesheetRoot::shouldStripSourceNode on every text "
-              "node (XalanSourceTree and Xerces DOM sources), the real XPath/copy-of/key()/xsl:number through "
-              "XalanTransformer, and by differential transformations (with declarations on D vs without on D') over 26 "
-              "stylesheet bodies covering copy-of, apply-templates, keys, xsl:number, sort, patterns, string-values, "
-              "sibling/following/preceding axes, document().")
-LEVEL_NOTE = ("Trusted: Lean kernel; axioms propext/Classical.choice/Quot.sound only; hand transcription of "
-              "Stylesheet.cpp/StylesheetRoot.cpp/XPath.cpp NodeTester and the evaluator model (validated by the "
-              "correspondence run, bounded by generator coverage); gen/c13_gen.py (renderers, the §3.4 oracle in "
-              "python). Modelled, not verified: the XSLT instruction interpreter (copy-of, apply-templates, keys, "
-              "xsl:number, sort) — those observation paths are covered by the differential runs only; Xerces parsing; "
-              "attributes/namespace nodes are outside the evaluator model.")
+TECHNIQUE = ("Lean 4 proofs (tester ordering + xml:space walk = XSLT 3.4; simulation of the strip-aware evaluator, copy-of, "
+             "key tables, select contexts, sort keys and all three xsl:number levels by their plain counterparts on the "
+             "physically stripped tree, by induction on expressions/trees) + translator (inventory of every "
+             "shouldStripSourceNode call site and of the ordering / xml:space statements, re-proved each run) + "
+             "correspondence of the model with the real shouldStripSourceNode / XPath / copy-of / key() / xsl:number on "
+             "XalanSourceTree and Xerces-DOM sources + differential runs (declared vs pre-stripped) through XalanTransformer")
+LEVEL_TEXT = ("Machine-checked: (1) for every import tree of strip/preserve declarations, every parent element (name and "
+              "xml:space state) and every text node, the first match in the list built by Stylesheet::addWhitespaceElement "
+              "and merged by postConstruction, together with the xml:space ancestor walk, decides exactly what XSLT 1.0 "
+              "3.4 prescribes (import precedence, priority, last one; preserved under xml:space=preserve); (2) for every "
+              "document, every strip function and every expression of the modelled XPath fragment (13 axes from element, "
+              "text, comment, PI, document, attribute and namespace context nodes; all node tests; up to two predicates per step; "
+              "union; filter; node-set variables; position/last/count/string/string-length/local-name/normalize-space/"
+              "=/</+/-/and/or/not/boolean/concat/contains/starts-with), evaluation that asks `strip` at the node tests and "
+              "in string-values equals evaluation on the physically stripped document (node-sets correspond, strings/"
+              "numbers/booleans equal); the same for the events of xsl:copy-of, key() tables, for-each/apply-templates "
+              "contexts, xsl:sort keys, match/count/from/key patterns with predicates and several steps read as "
+              "expressions, xsl:number level single/multiple and level any with or without from (including that the C++ "
+              "backwards walk computes the Recommendation's count). Tied to the working tree by a translator (7 call "
+              "sites + 15 statements, re-proved each run), by calling the real StylesheetRoot::shouldStripSourceNode on "
+              "every text node and the real XPath/copy-of/key()/xsl:number through XalanTransformer on both source "
+              "representations (XalanSourceTree, Xerces DOM; with and without DTD-declared element content), and by "
+              "differential transformations (with declarations on D vs without on D') over 29 stylesheet bodies.")
+LEVEL_NOTE = ("Trusted: Lean kernel; axioms propext/Classical.choice/Quot.sound only; the hand transcription of "
+              "Stylesheet.cpp/StylesheetRoot.cpp/XPath.cpp NodeTester/DOMServices/ElemNumber.cpp/KeyTable and the evaluator "
+              "model (validated by the correspondence streams, bounded by generator coverage); gen/c13_gen.py (renderers, "
+              "the python transcription of XSLT 3.4 that produces D'). Not modelled (named gaps, design/C13.md section 2): "
+              "id(), name(), attribute/namespace nodes as key/count targets, string->number conversions, "
+              "document() inside the evaluator, the XSLT instruction interpreter itself (template selection, sort "
+              "comparator, RTF construction) - those are covered by the differential runs only; that the library's "
+              "pattern matcher equals the expression reading of a pattern is property C09.")
 DESIGN_REF = "DESIGN.md section 5, C13; design/C13.md"
 
 THEOREMS = [
@@ -67,6 +70,17 @@ THEOREMS = [
     "XalanModel.Props.C13.results_never_stripped",
     "XalanModel.Props.C13.strVal_strip",
     "XalanModel.Props.C13.forgetful_nodeTest_counterexample",
+    "XalanModel.Props.C13.axes_simulation",
+    "XalanModel.Props.C13.axes_with_attributes_simulation",
+    "XalanModel.Props.C13.node_test_simulation",
+    "XalanModel.Props.C13.position_last_simulation",
+    "XalanModel.Props.C13.variable_binding_simulation",
+    "XalanModel.Props.C13.rtf_variable_simulation",
+    "XalanModel.Props.C13.count_simulation",
+    "XalanModel.Props.C13.value_of_root_simulation",
+    "XalanModel.Props.C13.generate_id_stable",
+    "XalanModel.Props.C13.pattern_simulation",
+    "XalanModel.Props.C13.multi_step_pattern_law",
     "XalanModel.Props.C13.apply_templates_default_children",
     "XalanModel.Props.C13.select_contexts_simulation",
     "XalanModel.Props.C13.sort_keys_simulation",
@@ -102,7 +116,8 @@ def make_lines(d, case, cid):
     """Writes the files of one case; returns [(line, role)]"""
     kind = case["kind"]
     sheet, doc = case["sheet"], case["doc"]
-    st, dt = G.sheet_tokens(sheet), G.doc_tokens(doc)
+    ix = not case.get("xerces")
+    st, dt = G.sheet_tokens(sheet), G.doc_tokens(doc, implicit_xml=ix)
     sfx = "x" if case.get("xerces") else ""      # source parsed into a Xerces DOM instead of the XalanSourceTree
     if kind == "strip":
         write_case(d, cid, G.render_sheet(sheet, cid, G.OUT_XML), G.render_doc(doc, dtd=case.get("dtd", False)))
@@ -118,17 +133,17 @@ def make_lines(d, case, cid):
             et = " ".join(G.expr_tokens(case["expr"]))
         elif kind == "key":
             body = G.key_body(case["match"], case["use"], case["lit"])
-            et = "%s ; %s ; %s" % (G.test_token(case["match"]), " ".join(G.expr_tokens(case["use"])), G.hex_units(case["lit"]))
+            et = "%s ; %s ; %s" % (G.pat_tokens(case["match"]), " ".join(G.expr_tokens(case["use"])), G.hex_units(case["lit"]))
         elif kind == "numbersm":
             body = G.numbersm_body(case["count"], case["from"], case["level"])
-            et = "%s ; %s ; %s" % (G.test_token(case["count"]), G.test_token(case["from"]) if case["from"] else "none", case["level"])
+            et = "%s ; %s ; %s" % (G.pat_tokens(case["count"]), G.pat_tokens(case["from"]), case["level"])
         else:
             body = G.number_body(case["count"], case["from"])
-            et = "%s ; %s" % (G.test_token(case["count"]), G.test_token(case["from"]) if case["from"] else "none")
+            et = "%s ; %s" % (G.pat_tokens(case["count"]), G.pat_tokens(case["from"]))
         write_case(d, cid + "a", G.render_sheet(sheet, cid + "a", body), G.render_doc(doc, dtd=case.get("dtd", False)))
         write_case(d, cid + "b", G.render_sheet(sheet, cid + "b", body, with_decls=False), G.render_doc(doc2, dtd=case.get("dtd", False)))
-        return [("%s %sa %s ; %s ; %s" % (kind, cid, " ".join(st), " ".join(dt), et), "A"),
-                ("%s %sb [ ] ; %s ; %s" % (kind, cid, " ".join(G.doc_tokens(doc2)), et), "B")]
+        return [("%s%s %sa %s ; %s ; %s" % (kind, sfx, cid, " ".join(st), " ".join(dt), et), "A"),
+                ("%s%s %sb [ ] ; %s ; %s" % (kind, sfx, cid, " ".join(G.doc_tokens(doc2, implicit_xml=ix)), et), "B")]
     body = G.BODY_BY_NAME[case["body"]]
     write_case(d, cid + "a", G.render_sheet(sheet, cid + "a", body.replace("@DOC@", cid + "a.xml")), G.render_doc(doc, dtd=case.get("dtd", False)))
     write_case(d, cid + "b", G.render_sheet(sheet, cid + "b", body.replace("@DOC@", cid + "b.xml"), with_decls=False),
@@ -320,7 +335,7 @@ def describe(case):
         d["body"] = case["body"]
         d["stylesheet"] = G.render_sheet(case["sheet"], "main", G.BODY_BY_NAME[case["body"]])
     if case["kind"] in ("eval", "copy"):
-        d["xpath"] = G.expr_xpath(case["expr"])
+        d["stylesheet_body"] = G.eval_body(case["expr"]) if case["kind"] == "eval" else G.copy_body(case["expr"])
     if case["kind"] == "key":
         d["stylesheet_body"] = G.key_body(case["match"], case["use"], case["lit"])
     if case["kind"] == "number":
@@ -390,9 +405,34 @@ for _b, _ in G.BODIES:
 R_, X_ = ("", "r"), ("", "x")
 CORPUS += [
     {"kind": "eval", "sheet": S([dec(True, ("*",))]), "doc": CORPUS_DOC,
-     "expr": ("attr-of", ("stepP", ("step", ("root",), "descendant", ("any",)), "child", ("node",), ("num", 1)), ("", "n"))},
+     "expr": ("let", ("step", ("step", ("root",), "child", ("any",)), "child", ("node",)),
+              ("let", ("stepP", ("var", 0), "following-sibling", ("node",), ("num", 1)),
+               ("concat", ("string", ("count", ("var", 1))), ("local-name", ("filter", ("var", 0), ("last",))))))},
     {"kind": "eval", "sheet": S([dec(True, ("*",))]), "doc": CORPUS_DOC,
-     "expr": ("attr-count", ("step", ("root",), "descendant", ("node",)))},
+     "expr": ("string", ("step", ("stepP", ("step", ("root",), "descendant", ("any",)), "child", ("node",), ("num", 1)),
+                         "attribute", ("name", "", "n")))},
+    {"kind": "eval", "sheet": S([dec(True, ("*",))]), "doc": CORPUS_DOC,
+     "expr": ("local-name", ("step", ("step", ("step", ("root",), "descendant", ("text",)), "parent", ("any",)), "attribute", ("any",)))},
+    {"kind": "eval", "sheet": S([dec(True, ("*",))]), "doc": CORPUS_DOC,
+     "expr": ("count", ("union", ("step", ("step", ("root",), "descendant", ("any",)), "attribute", ("any",)),
+                        ("step", ("root",), "descendant", ("node",))))},
+    {"kind": "eval", "sheet": S([dec(True, ("*",))]), "doc": CORPUS_DOC,
+     "expr": ("count", ("step", ("step", ("step", ("root",), "descendant", ("any",)), "attribute", ("any",)), "following", ("node",)))},
+    {"kind": "copy", "sheet": S([dec(True, ("*",))]), "doc": CORPUS_DOC,
+     "expr": ("step", ("step", ("step", ("root",), "descendant", ("any",)), "attribute", ("any",)), "parent", ("node",))},
+    # namespace nodes (the library's: the declaring xmlns attribute nodes, parent = declaring element)
+    {"kind": "eval", "sheet": S([dec(True, ("*",))]), "doc": CORPUS_DOC,
+     "expr": ("count", ("step", ("step", ("root",), "descendant", ("any",)), "namespace", ("any",)))},
+    {"kind": "eval", "sheet": S([dec(True, ("*",))]), "doc": CORPUS_DOC,
+     "expr": ("concat", ("local-name", ("stepP", ("step", ("root",), "descendant", ("name", "", "b")), "namespace", ("node",), ("num", 2))),
+              ("string", ("count", ("step", ("stepP", ("step", ("root",), "descendant", ("name", "", "b")), "namespace", ("any",), ("last",)),
+                                    "following", ("node",)))))},
+    {"kind": "eval", "sheet": S([dec(True, ("*",))]), "doc": CORPUS_DOC,
+     "expr": ("count", ("union", ("step", ("step", ("root",), "child", ("any",)), "namespace", ("any",)),
+                        ("union", ("step", ("step", ("root",), "child", ("any",)), "attribute", ("any",)),
+                         ("step", ("step", ("root",), "child", ("any",)), "child", ("node",)))))},
+    {"kind": "eval", "sheet": S([dec(True, ("*",))]), "doc": CORPUS_DOC,
+     "expr": ("count", ("step", ("step", ("root",), "descendant", ("node",)), "attribute", ("node",)))},
     # the witness that separated D and D' before /repo f84b15b (former known finding C13-number-any-from)
     {"kind": "number", "sheet": S([dec(True, ("q", "", "a"))]),
      "doc": D(E(R_, E(X_, T("x")), E(B_, E(A_, T(" "))), T("y"))), "count": ("text",), "from": ("name", "", "a")},
@@ -438,12 +478,18 @@ def gen_cases(ctx):
     cases = [dict(c) for c in CORPUS]
     for _ in range(n_strip):
         cases.append({"kind": "strip", "sheet": G.gen_sheet(r), "doc": G.gen_doc(r, r.range(2, 4), r.range(3, 6))})
-    for _ in range(n_eval):
-        cases.append({"kind": "eval", "sheet": G.gen_sheet(r), "doc": G.gen_doc(r, r.range(2, 3), r.range(3, 5)),
-                      "expr": G.gen_expr(r, r.range(1, 3))})
+    for i in range(n_eval):
+        doc = G.gen_doc(r, r.range(2, 3), r.range(3, 5))
+        if i % 3 == 2:
+            doc = G.add_ns_decls(r, doc)      # inner namespace declarations (shadowing) for the namespace axis
+        cases.append({"kind": "eval", "sheet": G.gen_sheet(r), "doc": doc, "expr": G.gen_expr(r, r.range(1, 3))})
     for i in range(n_xform):
         cases.append({"kind": "xform", "sheet": G.gen_sheet(r), "doc": G.gen_doc(r, r.range(2, 4), r.range(3, 6)),
                       "body": G.BODIES[i % len(G.BODIES)][0]})
+    for _ in range(n_copy):
+        # node-set variables: xsl:variable select=… then used (also inside predicates)
+        cases.append({"kind": "eval", "sheet": G.gen_sheet(r), "doc": G.gen_doc(r, r.range(2, 3), r.range(3, 5)),
+                      "expr": G.gen_expr_vars(r, r.range(1, 2))})
     for _ in range(n_copy):
         cases.append({"kind": "copy", "sheet": G.gen_sheet(r), "doc": G.gen_doc(r, r.range(2, 3), r.range(3, 5)),
                       "expr": G.gen_ns(r, r.range(1, 2), False) if r.chance(4, 5) else G.gen_expr(r, 2)})
@@ -457,6 +503,19 @@ def gen_cases(ctx):
         cases.append({"kind": "numbersm", "sheet": G.gen_sheet(r), "doc": G.gen_doc(r, r.range(2, 4), r.range(3, 5)),
                       "count": G.gen_pattern(r), "from": G.gen_pattern(r) if r.chance(1, 3) else None,
                       "level": "single" if i % 2 else "multiple"})
+    # count / from / key patterns with several steps and predicates (exprPat in the model)
+    for i in range(n_number):
+        k = i % 3
+        doc = G.gen_doc(r, r.range(2, 4), r.range(3, 5))
+        if k == 0:
+            cases.append({"kind": "key", "sheet": G.gen_sheet(r), "doc": doc, "match": G.gen_pattern2(r, allow_node_last=False),
+                          "use": G.gen_any(r, r.range(0, 1), "ctx"), "lit": r.choice(G.KEY_LITS)})
+        elif k == 1:
+            cases.append({"kind": "number", "sheet": G.gen_sheet(r), "doc": doc, "count": G.gen_pattern2(r),
+                          "from": (G.gen_pattern2(r) if r.chance(1, 2) else G.gen_pattern(r)) if r.chance(1, 3) else None})
+        else:
+            cases.append({"kind": "numbersm", "sheet": G.gen_sheet(r), "doc": doc, "count": G.gen_pattern2(r),
+                          "from": G.gen_pattern2(r) if r.chance(1, 4) else None, "level": "single" if i % 2 else "multiple"})
     for i in range(n_xerces):
         # the same two streams with the source held in a Xerces DOM (XercesDOMWrapper nodes, own isWhitespace())
         if i % 3 == 0:
@@ -473,10 +532,13 @@ def gen_cases(ctx):
             cases.append({"kind": "strip", "sheet": G.gen_sheet(r), "doc": doc, "xerces": xer})
         else:
             cases.append({"kind": "xform", "sheet": G.gen_sheet(r), "doc": doc, "body": r.choice(G.BODIES)[0], "xerces": xer})
-    # a sixth of the generated cases carry an internal DTD subset with element-content declarations
+    # a sixth of the generated cases carry an internal DTD subset with element-content declarations; a quarter of
+    # ALL generated cases (every stream, every body) run on the Xerces-DOM representation of the source
     for i, c in enumerate(cases[len(CORPUS):]):
         if i % 6 == 5:
             c["dtd"] = True
+        if i % 4 == 1:
+            c["xerces"] = True
     if ctx.thorough:
         cases += small_scope()
     return cases
@@ -519,7 +581,7 @@ def nontrivial_key(case, r):
     if case["kind"] == "strip":
         return "strip " + " ".join(G.sheet_tokens(case["sheet"])) + " | " + bits(sb)
     if case["kind"] in ("eval", "copy"):
-        return case["kind"] + " " + G.expr_xpath(case["expr"]) + " | " + " ".join(G.doc_tokens(case["doc"]))[:200] + bits(sb)
+        return case["kind"] + " " + " ".join(G.expr_tokens(case["expr"])) + " | " + " ".join(G.doc_tokens(case["doc"]))[:200] + bits(sb)
     if case["kind"] == "key":
         return "key " + G.key_body(case["match"], case["use"], case["lit"])[60:] + " | " + " ".join(G.doc_tokens(case["doc"]))[:200] + bits(sb)
     if case["kind"] == "numbersm":
@@ -652,6 +714,8 @@ def json_to_case(c):
         return {"items": items, "imports": [sheet(i) for i in s["imports"]]}
 
     def expr(e):
+        if e and e[0] == "pat":
+            return ("pat", [(expr(t), expr(q) if q is not None else None) for t, q in e[1]])
         return tuple(expr(x) if isinstance(x, list) else x for x in e)
     out = dict(c)
     out["doc"] = node(c["doc"])
